@@ -84,3 +84,27 @@ Theorem C08_send_model_is_the_source : forall m port,
   (forall c, (3 <= length m)%nat -> g_Client_send (Some c) m port = Val (Some c, port)).
 Proof. exact send_agrees. Qed.
 Print Assumptions C08_send_model_is_the_source.
+
+(* ---- the serial port over UDP, the transport of an emulator and its client (xsensemulator/udpserialport.go) ----
+   Whatever one port writes, the port facing it reads whole, unchanged and in order - every size, every configured
+   timeout, however much time passes in between (Model/UdpPort.v on a first-in first-out loop-back network). *)
+Require Import Base.GoBytes Model.UdpPort Proofs.UdpPortProofs Gen.UdpFns Tie.UdpAgree.
+Theorem C08_udp_port_delivers_every_slice_unchanged : forall t0 t1 side buflen ps,
+  Forall (fun p => (length p <= buflen)%nat) ps ->
+  urun t0 t1 unet0 (writes side ps ++ reads (negb side) buflen (length ps)) =
+  map (fun p => UWrote (Z.of_nat (length p)) None) ps ++ map (fun p => UGot p None) ps.
+Proof. exact udp_delivers. Qed.
+Print Assumptions C08_udp_port_delivers_every_slice_unchanged.
+
+(* and that model is udpserialport.go as regenerated on this run: Write and Read hand the caller's slice as it is to the
+   connection and return its results as they are, after a fresh deadline for that direction only when a timeout was
+   configured; a port created without options has none; the port listens on its origin and sends to its destination. *)
+Theorem C08_udp_port_model_is_the_source :
+  (forall t dl cw p, g_UDPSerialPort_Write t dl cw p = Val (udp_write t dl cw p)) /\
+  (forall t dl cr p, g_UDPSerialPort_Read t dl cr p = Val (udp_read t dl cr p)) /\
+  (forall c, g_UDPSerialPort_Close c = Val c) /\
+  g_defaultOptions = 0%Z /\
+  (forall t old, g_WithTimeout t old = t) /\
+  (forall rs ls o a b, g_NewUDPSerialPort rs ls o a b = Val (udp_new rs ls o a b)).
+Proof. exact udp_port_agrees. Qed.
+Print Assumptions C08_udp_port_model_is_the_source.
